@@ -180,6 +180,13 @@ def atomic(ctx) -> None:
                 defs = [s for s in core.walk_local(fn.node) if isinstance(s, ast.Assign) and core.src(s.targets[0]) == tmpname]
                 sibling = bool(defs) and all(isinstance(d.value, ast.Call) and isinstance(d.value.func, ast.Attribute) and d.value.func.attr in ('with_name', 'with_suffix') and _is_marker_expr(d.value.func.value, tainted, methods) for d in defs)
                 ctx.check(sibling, 'R-ATOMIC.1', fn, f'{mname}: the temporary `{tmpname}` is a sibling of the marker (same directory => rename is atomic)', p, key=f'{mname}:sibling')
+                # ... of its own: a *fresh* name per publication (uuid) that starts empty - a fixed staging name left behind by a
+                # publication that died is found again by the next one (copytree(dirs_exist_ok=True) merges into it, a plain
+                # copytree refuses it forever), so what gets renamed onto the marker is not "the complete new item"
+                fresh = bool(defs) and all('uuid.uuid4()' in core.src(d.value) for d in defs)
+                ctx.check(fresh, 'R-ATOMIC.1', fn, f'{mname}: the temporary `{tmpname}` carries a fresh unique name (uuid4) for every publication', defs[0] if defs else p, key=f'{mname}:fresh-temporary')
+                merges = [c for c in core.walk_local(fn.node) if isinstance(c, ast.Call) and any(k.arg == 'dirs_exist_ok' and not core.is_const(k.value, False) for k in c.keywords)]
+                ctx.check(not merges, 'R-ATOMIC.1', fn, f'{mname}: the staged copy starts from nothing (no dirs_exist_ok merge into a left-over directory)', merges[0] if merges else p, key=f'{mname}:no-merge')
                 writes = []
                 for s in graph.statements():
                     for c in cfg.header_calls(s):
